@@ -16,7 +16,7 @@
    the three availability conditions. The code proved is the repaired one (fix commits F1–F3, see known_findings.json). *)
 From AL Require Import Base Api Mutex RwLock RwApi RwInv RwLive.
 From AL.Tie Require Tie_Raw Tie_RwLock Tie_RwFutures Tie_Mutex.
-From AL.Sched Require RwReadEvSched RwReadEvInv RwReadEvOrd RwWriteEvSched RwWriteEvInv RwWriteEvOrd MutexEvSched MutexEvInv MutexEvOrd.
+From AL.Sched Require RwReadEvSched RwReadEvInv RwReadEvOrd RwWriteEvSched RwWriteEvInv RwWriteEvOrd RwComp MutexEvSched MutexEvInv MutexEvOrd.
 
 Theorem C06_idle_nothing_pending : forall ops : list rop, N.of_nat (length ops) < RLIVE_BOUND ->
   let x := rrun ops in quiescent x -> r_guards x = [] -> no_unpolled_upgrade x ->
@@ -90,6 +90,40 @@ Theorem C06_sched_writer_prefix_refuted :
   RwWriteEvSched.lostb (RwWriteEvSched.run false 1 2 (RwWriteEvSched.f2c_schedule false)) = true.
 Proof. exact RwWriteEvInv.rw_write_sched_prefix_refuted. Qed.
 
+(* ---------- the two sides TOGETHER on one WRITER_BIT (Sched/RwComp.v) ---------- *)
+(* A composed action is translated, depending on the composed state, into the actions of the two machines that the
+   corresponding atomic step of the code consists of (a reader's successful compare_exchange is also the writer side's
+   ARead; write()'s fetch_or / upgrade()'s fetch_sub is also the reader side's AWSet; write_unlock of a guard or of a
+   cancelled future, and the downgrades, are also AWClear, ...). Each component of a composed run is a run of that
+   component's machine, so both theorems above hold of it; the two copies of WRITER_BIT agree and equal "some future is
+   past the inner mutex" (coherence), which turns clause (b) into a statement about writers:
+   for every composed schedule, with NO write() / upgrade() future between its fetch_or / fetch_sub and the end of its
+   write guard, and the reader side at rest, no polled read() waits; with no reader left and the writer side at rest, no
+   polled write() / upgrade() waits. The inner mutex stays abstract (clause (c) is C05_sched, below). *)
+Theorem C06_sched_composed : forall (nr nw : nat) (sched : list RwComp.cact),
+  let s := RwComp.crun nr nw sched in
+  (RwWriteEvInv.cntb RwWriteEvInv.actpc (RwWriteEvSched.g_futs (RwComp.cW s)) = 0 ->
+   RwReadEvSched.quiescentb (RwComp.cR s) = true -> existsb RwReadEvSched.parkedb (RwReadEvSched.g_futs (RwComp.cR s)) = false) /\
+  (RwWriteEvSched.g_rd (RwComp.cW s) = 0 ->
+   RwWriteEvSched.quiescentb (RwComp.cW s) = true -> existsb RwWriteEvSched.parkedb (RwWriteEvSched.g_futs (RwComp.cW s)) = false) /\
+  RwReadEvSched.g_wb (RwComp.cR s) = RwWriteEvSched.g_wb (RwComp.cW s) /\
+  RwWriteEvSched.g_act (RwComp.cW s) = RwWriteEvSched.g_wb (RwComp.cW s).
+Proof.
+  intros nr nw sched s. split; [exact (RwComp.rw_comp_readers nr nw sched)|]. split; [exact (RwComp.rw_comp_writer nr nw sched)|].
+  exact (RwComp.crun_Coh nr nw sched).
+Qed.
+Example C06_sched_composed_nonvacuous :
+  let s := RwComp.crun 2 1 [RwComp.CRPoll 0 false; RwComp.CRStep 0 false; RwComp.CRStep 0 false;
+                            RwComp.CWEnter 0 false; RwComp.CWStep 0; RwComp.CWStep 0; RwComp.CWStep 0; RwComp.CWStep 0;
+                            RwComp.CRPoll 1 true; RwComp.CRStep 1 false; RwComp.CRStep 1 false; RwComp.CRStep 1 false;
+                            RwComp.CRUnlock; RwComp.CPendNR; RwComp.CWPoll 0; RwComp.CWStep 0; RwComp.CWStep 0;
+                            RwComp.CWUnlock 0; RwComp.CPendNW; RwComp.CRPoll 1 true; RwComp.CRStep 1 false; RwComp.CRStep 1 false;
+                            RwComp.CRStep 1 false; RwComp.CRStep 1 false; RwComp.CRStep 1 false] in
+  RwReadEvSched.g_wb (RwComp.cR s) = false /\ RwWriteEvSched.g_rd (RwComp.cW s) = 1 /\
+  option_map RwReadEvSched.fpc (RwReadEvSched.getf (RwComp.cR s) 1) = Some RwReadEvSched.RDone /\
+  option_map RwWriteEvSched.fpc (RwWriteEvSched.getf (RwComp.cW s) 0) = Some RwWriteEvSched.WGone.
+Proof. exact RwComp.rw_comp_example. Qed.
+
 (* writers and upgradable readers queue on the inner mutex, which is the Mutex of C05: its schedule-level theorem
    (clause (c): with the inner mutex free nothing waits on it) is C05_sched, restated here for the record *)
 Theorem C06_sched_inner_mutex : forall (sched : list MutexEvSched.act) (nfuts : nat),
@@ -113,3 +147,4 @@ Print Assumptions C06_sched_inner_mutex.
 Print Assumptions C06_sched_readers_prefix_refuted.
 Print Assumptions C06_sched_writer.
 Print Assumptions C06_sched_writer_prefix_refuted.
+Print Assumptions C06_sched_composed.
